@@ -828,7 +828,7 @@ def rule_regex_timeout_translated(ctx, rep, rid: str, exc: str = "RegexTimeoutEr
                     return f"handler for {exc} at line {h.lineno} does not raise {to}"
         return None
 
-    def callers_protected(f: Func, depth: int) -> Tuple[bool, str]:
+    def callers_protected(f: Func, depth: int, seen: frozenset = frozenset()) -> Tuple[bool, str]:
         sites = [cs for cs in cg.sites if any(t is f for t in cs.targets) and not cs.func.module.name.startswith("regex")]
         if not sites or depth == 0:
             return False, "no protected caller"
@@ -838,7 +838,9 @@ def rule_regex_timeout_translated(ctx, rep, rid: str, exc: str = "RegexTimeoutEr
                 continue
             if r is not None:
                 return False, r
-            ok, why = callers_protected(cs.func, depth - 1)
+            if id(cs.func) in seen:
+                continue  # a cycle of the call graph adds no new way in
+            ok, why = callers_protected(cs.func, depth - 1, seen | {id(f)})
             if not ok:
                 return False, f"caller {cs.func.qual}:{cs.line} unprotected ({why})"
         return True, ""
@@ -862,7 +864,7 @@ def rule_regex_timeout_translated(ctx, rep, rid: str, exc: str = "RegexTimeoutEr
         elif r is not None:
             rep.bad(rid, key, r, loc)
         else:
-            ok, why = callers_protected(f, 3)
+            ok, why = callers_protected(f, 8)
             if ok:
                 rep.ok(rid, key, {"site": loc, "protected_by": "all callers"})
             else:
